@@ -54,3 +54,39 @@ fn k_shim_transform() {
     assert!(t1.position().x == v(c) && t1.position().y == v(f));
     kani::cover!(w1 == 0.);
 }
+
+// ---------------------------------------------------------------- from_operations on sample strings of the grammar (C17, BOUNDED)
+fn expect_op(s: &str, want: [f64; 6]) {
+    let t = Transform2::from_operations(s);
+    assert!(t.is_ok());
+    let m: nalgebra::Matrix3<f64> = t.unwrap().into();
+    assert!(m[(0, 0)] == want[0] && m[(0, 1)] == want[1] && m[(0, 2)] == want[2]);
+    assert!(m[(1, 0)] == want[3] && m[(1, 1)] == want[4] && m[(1, 2)] == want[5]);
+    assert!(m[(2, 0)] == 0. && m[(2, 1)] == 0. && m[(2, 2)] == 0.);
+    kani::cover!(true);
+}
+macro_rules! parse_harness {
+    ($name:ident, $s:expr, $want:expr) => {
+        #[kani::proof]
+        #[kani::unwind(40)]
+        fn $name() { expect_op($s, $want); }
+    };
+}
+// (x', y') = (a x + b y + s, c x + d y + t)  as [a, b, s, c, d, t]
+parse_harness!(k_parse_swap, "-y, x", [0., -1., 0., 1., 0., 0.]);
+parse_harness!(k_parse_parens, "(x, y)", [1., 0., 0., 0., 1., 0.]);
+parse_harness!(k_parse_const_first, "1/2-x, y+3/4", [-1., 0., 0.5, 0., 1., 0.75]);
+parse_harness!(k_parse_neg_const, "x-1/2, -y", [1., 0., -0.5, 0., -1., 0.]);
+parse_harness!(k_parse_mixed, "x-y, x", [1., -1., 0., 1., 0., 0.]);
+
+/// anything else is an error, never a crash
+macro_rules! reject_harness {
+    ($name:ident, $s:expr) => {
+        #[kani::proof]
+        #[kani::unwind(40)]
+        fn $name() { let t = Transform2::from_operations($s); assert!(t.is_err()); kani::cover!(true); }
+    };
+}
+reject_harness!(k_parse_reject_one, "x");
+reject_harness!(k_parse_reject_three, "x,y,z");
+reject_harness!(k_parse_reject_letter, "a,y");
